@@ -151,7 +151,8 @@ class PFlow(BaseRoutine):
         gmax = system.dae.g[gmax_idx]
         logger.debug("Max. algeb mismatch %.10g on %s", gmax, system.dae.y_name[gmax_idx])
 
-        mis = max(abs(fmax), abs(gmax))
+        # `np.max` propagates NaN, whereas the builtin `max` can drop it
+        mis = np.max([abs(fmax), abs(gmax)])
         system.vars_to_models()
 
         return mis
